@@ -770,6 +770,19 @@ pub fn scenarios(t: &Tables, seeds: &[String], seed: u64, n_small: usize, n_mate
             }
         }
     }
+    // exactly one legal move (a forced reply)
+    count = 0;
+    tries = 0;
+    while count < n_term / 2 && tries < 2000000 {
+        tries += 1;
+        let (s, w) = kits[rng.gen_range(0..kits.len())];
+        if let Some(b) = random_endgame(t, &mut rng, s, w) {
+            if generate_moves(&b, MoveGenerationMode::AllMoves, &t.hasher).len() == 1 {
+                out.push(json!({"tag": "forced", "cmd": format!("position fen {}", to_fen(&b, 0, 1))}));
+                count += 1;
+            }
+        }
+    }
     // game positions with their real history
     count = 0;
     while count < n_game {
